@@ -83,8 +83,9 @@ fn parse_props(text: String) -> String {
 fn completion_dump() -> String {
     use ide::analysis::AnalysisHost;
     // labels offered by the real Analysis::completion in the four contexts
-    let cases: [(&str, &str, Option<&str>); 4] = [
+    let cases: [(&str, &str, Option<&str>); 5] = [
         ("bang", "class Foo<int a = !$", Some("!")),
+        ("bang_base", "class Foo<int a = !$", None),
         ("toplevel", "c$", None),
         ("type", "class Foo<i$", None),
         ("value", "class Foo<int a = t$", None),
